@@ -1,6 +1,7 @@
 package main
 
 import (
+	"sort"
 	"go/ast"
 	"fmt"
 	"go/token"
@@ -549,6 +550,8 @@ func (c *FnCtx) call(ins ssa.Instruction, cc *ssa.CallCommon, val ssa.Value) {
 		nGeneric := len(hs)
 		siteNo := len(c.callRes[ci.name])
 		hs = append(hs, c.spec.Hints[fmt.Sprintf("%s#%d", ci.name, siteNo)]...)
+		c.markHint(ci.name)
+		c.markHint(fmt.Sprintf("%s#%d", ci.name, siteNo))
 		for k, h := range hs {
 			// a fact the contract asks to be established here (proved, then available as a lemma)
 			env := c.fnEnv(c.st, c.entry, false)
@@ -1433,6 +1436,8 @@ func (c *FnCtx) pointHints(key string, ins ssa.Instruction, pos token.Pos, extra
 	}
 	// "before send:ch assert" applies at every such point, "before send:ch#k assert" only at the k-th (SSA order)
 	site := c.pointSiteIndex(key, ins)
+	c.markHint(key)
+	c.markHint(fmt.Sprintf("%s#%d", key, site))
 	for k, h := range c.spec.Hints[fmt.Sprintf("%s#%d", key, site)] {
 		env := c.pointEnv(ins, extra)
 		o := c.oblig(fmt.Sprintf("%s/hint:%s@%d#%d", c.name, key, site, k+1), "hint", c.g.posStr(pos), false)
@@ -1483,4 +1488,28 @@ func (c *FnCtx) pointSiteIndex(key string, ins ssa.Instruction) int {
 		}
 	}
 	return n
+}
+
+// markHint records that the program point a "before <key> assert" clause is attached to exists in this function.
+func (c *FnCtx) markHint(key string) {
+	if c.hintSeen == nil {
+		c.hintSeen = map[string]bool{}
+	}
+	c.hintSeen[key] = true
+}
+
+// deadHints: "before <key> assert" clauses whose program point does not exist in the function - such a clause
+// would claim nothing; the contract is reported as not applicable to the code instead.
+func (c *FnCtx) deadHints() []string {
+	var out []string
+	if c.spec == nil {
+		return nil
+	}
+	for key, hs := range c.spec.Hints {
+		if len(hs) > 0 && !c.hintSeen[key] {
+			out = append(out, key)
+		}
+	}
+	sort.Strings(out)
+	return out
 }
